@@ -3,7 +3,7 @@
    Everything here is a closed computation. *)
 From LC Require Import Lib.Bytes Lib.Lex Lib.Fields Lib.PathM Model.Config Gen.Consts
   Model.MountInfo Model.FsTree Model.Kernel Model.Layers Cases.Verdict Cases.LC Cases.C02
-  Proofs.C02cP Proofs.C02dP Proofs.C02P.
+  Proofs.C02cP Proofs.C02dP Proofs.C02eP Proofs.C02P.
 Import LC LCS.
 
 Definition cfg0 : cfgT :=
@@ -31,7 +31,7 @@ Definition nc : bytes := bs "c".
 Example hyps_satisfiable :
   (cfg_ok cfg0 && fs_ok cfg0 fs0 && kernel_wf wld0 && names_distinct cfg0 wld0 && paths_distinct wld0
    && C02.forest_ok cfg0 fs0 && base_set_up cfg0 fs0
-   && no_stale_tmp cfg0 fs0 (CRebase nb_ [])
+   && no_stale_tmp cfg0 fs0 (CRebase nb_ []) && no_stale_tmp cfg0 fs0 (CRename na nc)
    && (2 <=? length (read_layer_files cfg0 fs0))%nat) = true.
 Proof. vm_compute. reflexivity. Qed.
 Example breaking_satisfiable :
@@ -136,3 +136,10 @@ Proof.
   split; vm_compute; reflexivity.
 Qed.
 
+
+(* the whole of step_spec evaluates to true on the example world for successful structural steps *)
+Example step_spec_examples :
+  map (fun cmd => C02.step_spec cfg0 wld0 (view_of_model cfg0 wld0 env_plain cmd []))
+      [CAdd nc nb_ []; CRebase nb_ []; CRemove nb_ false; CRename na nc; CMkdirs nb_; CRebase na nb_; CInit]
+  = [true; true; true; true; true; true; true].
+Proof. vm_compute. reflexivity. Qed.
